@@ -136,10 +136,15 @@ class NaiveBayes(BayesianNetwork):
         {'b'}
         """
 
-        if observed and self.dependent in observed:
-            return set(start)
+        if observed is None:
+            observed = []
+        elif not isinstance(observed, (list, tuple, set)):
+            observed = [observed]
+
+        if self.dependent in observed:
+            return {start} - set(observed)
         else:
-            return set(self.nodes()) - set(observed if observed else [])
+            return set(self.nodes()) - set(observed)
 
     def local_independencies(self, variables):
         """
